@@ -3709,7 +3709,7 @@ class EquilibriumRegion(PsiContour):
                     #                    = -A*B**2
                     B = (
                         -(
-                            a / 4.0 / (N / N_norm) ** 1.5
+                            -a / 4.0 / (N / N_norm) ** 1.5
                             + 2.0 * e
                             + 6.0 * f * N / N_norm
                         )
